@@ -524,6 +524,104 @@ func runC03(c *core.Ctx) {
 			st.loadSDLCase("directive-graph", dirGraphSDL(n, m, two))
 		}
 	}
+	// ---- (iii-d) length ladders: one token (or one nesting) grown across the sizes at which fixed scratch buffers, 8/16-bit
+	// counters and chunked readers change behaviour, for every token class, in every position that reads it
+	{
+		lengths := []int{15, 16, 17, 31, 32, 33, 63, 64, 65, 127, 128, 129, 255, 256, 257, 1023, 1024, 1025, 4095, 4096, 4097, 65535, 65536, 65537}
+		type ladder struct {
+			name string
+			make func(n int) string // a value literal of about n bytes
+		}
+		rep := strings.Repeat
+		ladders := []ladder{
+			{"integer-digits", func(n int) string { return "1" + rep("0", n-1) }},
+			{"negative-integer", func(n int) string { return "-" + rep("9", n-1) }},
+			{"fraction-digits", func(n int) string { return "0." + rep("0", n-3) + "1" }},
+			{"exponent-digits", func(n int) string { return "1e" + rep("0", n-3) + "1" }},
+			{"name-token", func(n int) string { return rep("a", n) }},
+			{"string", func(n int) string { return "\"" + rep("s", n-2) + "\"" }},
+			{"string-of-escapes", func(n int) string { return "\"" + rep("\\n", (n-2)/2) + "\"" }},
+			{"block-string", func(n int) string { return "\"\"\"" + rep("b", n-6) + "\"\"\"" }},
+			{"variable-name", func(n int) string { return "$" + rep("v", n-1) }},
+			{"list-of-ones", func(n int) string { return "[" + rep("1,", n/2) + "1]" }},
+			{"nested-lists", func(n int) string { return rep("[", n/2) + rep("]", n/2) }},
+			{"nested-objects", func(n int) string { return rep("{a:", n/4) + "1" + rep("}", n/4) }},
+			{"spaces", func(n int) string { return rep(" ", n) + "1" }},
+			{"commas", func(n int) string { return "[" + rep(",", n) + "]" }},
+			{"comment", func(n int) string { return "#" + rep("c", n) + "\n1" }},
+		}
+		for _, ld := range ladders {
+			for _, n := range lengths {
+				if c.Expired() {
+					break
+				}
+				if !own() {
+					continue
+				}
+				if n > 4097 && !c.Thorough() && (ld.name == "nested-lists" || ld.name == "nested-objects") {
+					continue
+				}
+				v := ld.make(n)
+				fam := "length-ladder:" + ld.name
+				st.valueCase(fam, v)
+				st.resolveAll(fam, "{ pick(m: "+v+", in: {min: "+v+"}) echo(s: "+v+") }", "", nil)
+				st.resolveAll(fam, "query Q($v: Int = "+v+") { pick(i: $v) }", "Q", nil)
+				st.loadSDLCase(fam, "input In { f: Int = "+v+" } type Query { i(a: String = "+v+" in: In): Int @deprecated(reason: "+v+") }")
+				if ld.name == "name-token" {
+					st.resolveAll(fam, "{ "+v+" "+v+": i a { "+v+" } ..."+v+" }", "", nil)
+					st.loadSDLCase(fam, "type "+v+" { "+v+": "+v+" } type Query { q: "+v+" }")
+				}
+			}
+		}
+	}
+	// ---- (iii-e) input types that reach themselves through defaulted fields (a default is a value of the type it sits in):
+	// every schema x every request shape that makes the library coerce a value of such a type
+	{
+		schemas := []string{
+			"input F { name: String not: F = {} }",
+			"input F { name: String = \"n\" not: F = {name: \"inner\"} and: [F] = [{}] }",
+			"input F { b: G = {} } input G { a: F = {} }",
+			"input F { l: [F!] = [{}, {l: []}] }",
+			"input F { n: F! = {n: {n: null}} }",
+			"input F { self: F = {self: {self: {}}} k: Int! = 1 }",
+		}
+		requests := []struct {
+			text string
+			vars map[string]interface{}
+		}{
+			{"{ find(f: {}) }", nil}, {"{ find }", nil}, {"{ find(f: null) }", nil}, {"{ find(f: {not: {}, b: {}, l: [{}], self: {}}) }", nil},
+			{"query Q($v: F) { find(f: $v) }", map[string]interface{}{"v": map[string]interface{}{}}},
+			{"query Q($v: F = {}) { find(f: $v) }", nil},
+			{"query Q($v: [F] = [{}]) { all(fs: $v) }", nil},
+			{"{ all(fs: [{}, {}]) a: find(f: {}) @flt }", nil},
+		}
+		for _, in := range schemas {
+			for _, dflt := range []string{"", " = {}"} {
+				sdl := in + "\ndirective @flt(f: F = {}) on FIELD\ntype Query { find(f: F" + dflt + "): String all(fs: [F]): String }\n"
+				if !own() {
+					continue
+				}
+				st.loadSDLCase("recursive-input-default", sdl)
+				for _, rq := range requests {
+					if !c.NextCase("recursive-input-default ResolveString on a root loaded with:\n" + sdl + "\nrequest: " + rq.text) {
+						continue
+					}
+					c.Eval()
+					c.R.Distinct++
+					c.Nontrivial()
+					if pi := core.Safe(func() {
+						root := ggql.NewRoot(c16Dummy{})
+						if root.ParseString(sdl) == nil {
+							res := root.ResolveString(rq.text, "", rq.vars)
+							_ = ggql.WriteJSONValue(io.Discard, res, -1)
+						}
+					}); pi != nil {
+						st.panicked("recursive-input-default", "ResolveString", pi, sdl+"\n"+rq.text)
+					}
+				}
+			}
+		}
+	}
 	// ---- (iv) reader faults at every Read call of every corpus document
 	for di, doc := range append(append([]string{}, exeCorpus[:6]...), sdlCorpus[:3]...) {
 		isSDL := di >= 6
